@@ -35,6 +35,39 @@ var OrdinaryWords = []string{
 	"up", "to", "on", "db", "fs", "io", "tag", "env", "var", "val",
 }
 
+// PluralInitialisms are plural forms of initialisms as Go code writes them
+// (IDs, URLs): one word each. They are only used as the LAST word of a name
+// and directly after an ordinary word (or alone); elsewhere the split of the
+// upper-case run is not fixed by the statement.
+var PluralInitialisms = []string{"ids", "urls", "ips", "apis", "uuids", "acls", "uris", "vms", "cpus"}
+
+var pluralSet = func() map[string]bool {
+	m := map[string]bool{}
+	for _, p := range PluralInitialisms {
+		m[p] = true
+	}
+	return m
+}()
+
+// IsPluralInitialism reports whether w is a plural initialism word.
+func IsPluralInitialism(w string) bool { return pluralSet[w] }
+
+// PluralPlacementOK: plural initialisms only last, and not after an initialism.
+func PluralPlacementOK(words []string) bool {
+	for i, w := range words {
+		if !IsPluralInitialism(w) {
+			continue
+		}
+		if i != len(words)-1 {
+			return false
+		}
+		if i > 0 && (IsInitialism(words[i-1]) || IsPluralInitialism(words[i-1])) {
+			return false
+		}
+	}
+	return true
+}
+
 // Capitalize upper-cases the first byte of an ASCII word.
 func Capitalize(w string) string {
 	if w == "" {
@@ -48,9 +81,12 @@ func Capitalize(w string) string {
 func GoName(words []string) string {
 	var b strings.Builder
 	for _, w := range words {
-		if IsInitialism(w) {
+		switch {
+		case IsInitialism(w):
 			b.WriteString(strings.ToUpper(w))
-		} else {
+		case IsPluralInitialism(w):
+			b.WriteString(strings.ToUpper(w[:len(w)-1]) + "s")
+		default:
 			b.WriteString(Capitalize(w))
 		}
 	}
@@ -137,6 +173,7 @@ func Vocabulary() []string {
 	for _, i := range Initialisms {
 		out = append(out, strings.ToLower(i))
 	}
+	out = append(out, PluralInitialisms...)
 	return out
 }
 
@@ -149,6 +186,10 @@ func RandomWords(r *fw.Rand, n int, initialismPct int) []string {
 		} else {
 			out[i] = fw.Pick(r, OrdinaryWords)
 		}
+	}
+	// occasionally a plural initialism as the last word (UserIDs, BackupURLs)
+	if initialismPct > 0 && r.Chance(6) && (n == 1 || !IsInitialism(out[n-2])) {
+		out[n-1] = fw.Pick(r, PluralInitialisms)
 	}
 	return out
 }
